@@ -94,7 +94,9 @@ Proof.
 Qed.
 
 Lemma subclasses_closed_lemma : forall c, valid_cls c ->
-  NoDup (iter_subclasses c) /  (forall d, In d (iter_subclasses c) <-> strict_descendant d c) /  ~ In c (iter_subclasses c).
+  NoDup (iter_subclasses c) /\
+  (forall d, In d (iter_subclasses c) <-> strict_descendant d c) /\
+  ~ In c (iter_subclasses c).
 Proof.
   intros c Hc. apply classes_In in Hc.
   pose proof (forallb_In _ _ closed_all c Hc) as H.
